@@ -17,13 +17,16 @@ EXPLANATION = (
     '"accepted ⇒ exemption ∨ ¬unsafe-value" for all completions of untested atoms. The environment string must '
     'originate from trim()+to_ascii_lowercase() of environment.environment_type. R2: KyroDbConfig::load returns '
     'Ok only past the success edge of validate(); the server\'s main validates after the CLI overrides, before '
-    'anything is opened, and never assigns config.* afterwards.')
+    'anything is opened, never assigns config.* afterwards and reads no command-line / environment input afterwards. R4: '
+    'the engine\'s FsyncPolicy::Never is built only on the edge fsync_policy = None of the validated configuration; snapshot_interval and '
+    'recovery_mode of the TieredEngineConfig are the validated settings.')
 
 MANIFEST = {
     'text': 'Decides the whole property statically: KyroDbConfig::validate is a loop-free decision procedure, so its '
             'accept/reject behaviour is the shape of its CFG. Every path to an Ok return is explored over a 13-atom '
             'predicate abstraction and must imply all 11 rows of the property\'s table for every value of untested '
-            'atoms; load() and the server\'s main are checked to validate before anything is opened.',
+            'atoms; load() and the server\'s main are checked to validate before anything is opened and to take no input afterwards; the '
+            'mapping from the validated settings to the engine configuration turns fsync off only for the refused value (R4).',
     'design_ref': 'DESIGN.md §4.18',
     'note': 'Trusted base: rustc MIR, the jump-threading of materialised booleans, the recognition of bail!/ensure! '
             'exits, the guard normal forms. is_loopback_host is an uninterpreted predicate. Settings the table does '
@@ -99,7 +102,8 @@ def run(ctx, prog):
                        '(no accepted path avoids a required guard except through its exemption edge)')
     ctx.rule('C18.R2', 'however the values arrive: KyroDbConfig::load returns Ok only past validate()\'s success edge; '
                        'the server\'s main calls validate() after the CLI overrides, before anything is opened, and '
-                       'does not assign config.* afterwards')
+                       'does not assign config.* afterwards; past validate() it reads neither the parsed command line nor the process '
+                       'environment (an override applied to a value DERIVED from config reaches the engine unvalidated)')
     ctx.not_decided = ['that the three accepted spellings of is_loopback_host are exactly the loopback addresses (the rule R3 decides only that the classifier is a closed '
                        'table over the WHOLE host)', 'serde/env-var parsing of individual settings']
     ctx.rule('C18.R3', 'the bind-host classifier is a closed table over the whole host: every string test in is_loopback_host has the fully normalised host as its subject '
